@@ -103,7 +103,7 @@ def unit_symbol_resolve(eng, speculative, digit_name):
 
 
 def units(tier):
-    us = [("rac", "unit_rac", {}), (".link", "unit_link_directive", {})]
+    us = [("rac", "unit_rac", {}), ("include-rac", "unit_include_probes", {}), (".link", "unit_link_directive", {})]
     for settled in (False, True):
         for hw in (False, True):
             for lz in (False, True):
@@ -134,7 +134,22 @@ def witness_D39(tree):
     return not (r["status"] == "ok" and r.get("base") == 0o1012), "'.link 1000+b-a / a: nop / . = .+10 / b: nop' -> %s %s" % (r["status"], [d[1] for d in r.get("diags", [])][:2])
 
 
-FINDING_WITNESS = {"D39": witness_D39}
+def unit_include_probes(eng=None):
+    """the statement's last sentence inside an INCLUDED file ('once the base is set, '. = X' moves forward zero-filling the gap', 'a second .link is an error'):
+    the include probes of C02 (every label followed by '.word <itself>'), restated.  Finding D38: an included file has a link-base record of its own."""
+    from contracts import c02
+    r = c02.unit_include_probes(eng)
+    for ob in r["obligations"]:
+        ob["label"] = "in-an-included-file-too:'. = X'-after-the-base-is-set-zero-fills-and-a-second-'.link'-is-refused(labels-lie-where-their-bytes-are)"
+    return r
+
+
+def witness_D38(tree):
+    from contracts import c02
+    return c02.witness_D38(tree)
+
+
+FINDING_WITNESS = {"D39": witness_D39, "D38": witness_D38}
 
 
 def canary(eng):
@@ -150,6 +165,9 @@ def replay(o, tree):
         return r_
     label = o.get("label", "")
     unit = o.get("unit", "")
+    if (o.get("cfg") or {}).get("kind") == "include-rac":
+        from contracts import c02
+        return c02.replay(o, tree)
     if (o.get("cfg") or {}).get("kind") == "poly-nested":
         return deferred_c.replay_poly_nested(o["cfg"], o.get("witness") or {}, tree)
     if (o.get("cfg") or {}).get("kind") == "poly-selfref":
